@@ -125,6 +125,22 @@ def run_unit(unit, rng, ctx):
     g2 = float(traj.metrics().tracer_diffusivity(dimensions=3))
     w2 = float(np.mean(final_sq)) * ANGSTROM**2 / (2 * 3 * T * dt)
     ctx.check(abs(g2 - w2) <= 1e-9 * abs(w2) + 1e-32 / (6 * T * dt), f'{what}: tracer_diffusivity changed when asked again through a new metrics object: {g2!r} vs {w2!r}', {'matrix': m})
+    # the same object grows in place (a second run appended with extend): MSD, distances and diffusivity are
+    # those of the frames it holds now
+    if unit['i'] % 3 == 0 and not huge:
+        T2 = int(rng.integers(2, 30))
+        Ue = np.concatenate([U, U[-1:] + np.cumsum(rng.uniform(-0.2, 0.2, size=(T2, N, 3)), axis=0)])
+        traj.extend(gen.make_trajectory(m, list(traj.species), (Ue - np.floor(Ue))[T:], time_step=dt))
+        carte = (Ue - Ue[:1]) @ m
+        wante = models.msd_model(carte)
+        gote = np.asarray(traj.mean_squared_displacement())
+        sce = max(float(wante.max()), 1e-12)
+        if ctx.check(gote.shape == wante.shape, f'{what}: after extend() by {T2} frames the MSD has shape {gote.shape}, expected {wante.shape}'):
+            ctx.check(float(np.abs(gote - wante).max()) <= 1e-9 * sce, f'{what}: after extend() by {T2} frames the MSD is not the time-origin average over the frames the object holds now (max dev {np.abs(gote - wante).max():.3e})', {'matrix': m})
+        ge = float(traj.metrics().tracer_diffusivity(dimensions=3))
+        we = float(np.mean(np.sum(carte[-1] ** 2, axis=1))) * ANGSTROM**2 / (6 * (T + T2) * dt)
+        ctx.check(abs(ge - we) <= 1e-9 * abs(we) + 1e-32 / (6 * (T + T2) * dt), f'{what}: after extend() by {T2} frames tracer_diffusivity is {ge!r}, the definition on the current frames gives {we!r}', {'matrix': m})
+        ctx.count('requery_after_extend')
     crossings = int(np.sum(np.floor(U[1:]) != np.floor(U[:-1])))
     nonortho = kind in ('hexagonal', 'rhombohedral', 'monoclinic', 'triclinic_mild', 'triclinic_strong')
     differ = N > 1 and float(np.ptp(final_sq)) > 1e-6
